@@ -189,6 +189,9 @@ class C18(Check):
             controlled = prog["mode"] == "controlled"
             # free mode: OS locking, requested with or without CKF_LIBRARY_CANT_CREATE_OS_THREADS (both ask the library to lock with OS primitives)
             setup = [{"fn": "init_callbacks"} if controlled else {"fn": "C_Initialize", "flags": prog.get("init_flags", K.CKF_OS_LOCKING_OK)}]
+            if prog.get("preinit"):
+                # the same process was initialised WITHOUT locking before (provisioning), and finalised: locking must still be switched on now
+                setup = [{"fn": "C_Initialize"}, {"fn": "C_Finalize"}] + setup
             for k, tok in enumerate(toks):
                 setup.append({"fn": "C_OpenSession", "slot": tok.slot, "flags": RW, "save": "main%d" % k})
                 if prog.get("start_logged_in"):
@@ -243,12 +246,16 @@ class C18(Check):
         close on its own session objects (fixed programs, no generator); sequential model for own objects, handles distinct, no crash"""
         rounds = [["open", 0, 1], ["create_s", 0, 0], ["find_own", 0, 0], ["read", 0, 0], ["digest", 1, 3], ["create_t", 0, 0], ["find_own", 1, 0], ["destroy", 0, 0], ["close", 0, 0]]
         combos = [K.CKF_OS_LOCKING_OK, K.CKF_OS_LOCKING_OK | K.CKF_LIBRARY_CANT_CREATE_OS_THREADS]
-        runs = [(f, r) for f in combos for r in range(3 if tier == "quick" else 12)]
-        for i, (flags, r) in enumerate(runs):
+        runs = [(f, r, pre) for f in combos for r in range(3 if tier == "quick" else 12) for pre in (False, True)]
+        runs += [("controlled", r, True) for r in range(2)]
+        for i, (flags, r, pre) in enumerate(runs):
             if i % nshards != shard:
                 continue
             prog = {"nthreads": 8, "threads": [rounds * 6 for _ in range(8)], "schedule": [], "mode": "free", "tokens": [t % 2 for t in range(8)] if r % 2 else [0] * 8,
-                    "start_logged_in": True, "init_flags": flags}
+                    "start_logged_in": True, "init_flags": flags, "preinit": pre}
+            if flags == "controlled":
+                prog = {"nthreads": 3, "threads": [rounds for _ in range(3)], "schedule": [0, 1, 2, 99, 99, 1, 0, 2], "mode": "controlled", "tokens": [0, 0, r % 2],
+                        "start_logged_in": True, "preinit": True}
             try:
                 self.execute(ctx, prog)
             except WorkerDied as d:
@@ -256,7 +263,7 @@ class C18(Check):
                 if v is not None:
                     return v
             ctx.label("stress_runs")
-            ctx.label("stress_runs_flags_%d" % flags)
+            ctx.label("stress_runs_flags_%s%s" % (flags, "_after_unlocked_init" if pre else ""))
         return None
 
     def extra(self, ctx, tier, shard, nshards):
@@ -652,6 +659,9 @@ class C18(Check):
         # ---- classification --------------------------------------------------------------------------------------
         same_token = len(prog["tokens"]) - len(set(prog["tokens"])) > 0
         if prog["mode"] == "controlled":
+            if res.get("lock_calls", 0) == 0:
+                raise bad("C_Initialize was given mutex callbacks and answered CKR_OK, but the library never called LockMutex during %d calls of %d threads: locking is "
+                          "not in effect" % (sum(len(t_) for t_ in threads), n))
             ctx.label("controlled_cases")
             ctx.label("switches_inside_calls", res["switches_in_call"])
             ctx.label("blocked_on_mutex", res["blocked_events"])
